@@ -308,7 +308,24 @@ class Serializable(eqx.Module):
 
         Returns:
             The deserialized model.
+
+        Raises:
+            RuntimeError: If the file holds more leaves than the model has.
         """
-        return eqx.tree_deserialise_leaves(
-            path, eqx.filter_eval_shape(cls, *args, **kwargs)
-        )
+        like = eqx.filter_eval_shape(cls, *args, **kwargs)
+
+        path = Path(path)
+        if path.suffix == "":
+            path = path.with_suffix(".eqx")
+
+        with open(path, "rb") as file:
+            model = eqx.tree_deserialise_leaves(file, like)
+            # Leaves are read sequentially; leftover data means the file was
+            # saved from a model with a different structure.
+            if file.read(1):
+                raise RuntimeError(
+                    f"{path} holds more leaves than the model being loaded; "
+                    "it was saved with different constructor arguments."
+                )
+
+        return model
